@@ -354,6 +354,7 @@ func RunIntegWorld(c *Ctl, prof *IntegProfile, w *IntegWorld, res *RunResult) *i
 		scheduler.VerifPause = simPause
 		e.sd = scheduler.NewScheduler(tr)
 		scheduler.VerifPause = 0
+		c.atAbort = append(c.atAbort, e.sd.Cancel)
 		for _, g := range w.AllGraphs() {
 			e.nstages += g.CountStages()
 		}
